@@ -622,6 +622,25 @@ def deep_conds(body, bb, _depth=3):
     return out
 
 
+def controlling_switches(body, x):
+    """blocks ending in a switch on which block x is (transitively) control dependent: one edge of the switch leads to x on every
+    returning path, another one can return without x.  Unlike dominating guards this sees short-circuit tests (`if a && b && c
+    { fast path; return }` makes what follows depend on three switches none of which dominates it with a single edge)."""
+    cfg = body.cfg
+    sws = [i for i in cfg.reach if not body.blocks[i]['cleanup'] and body.blocks[i]['term'] and body.blocks[i]['term']['k'] == 'switch']
+    out, work = set(), [x]
+    while work:
+        y = work.pop()
+        for S in sws:
+            if S in out:
+                continue
+            succs = [s_ for s_ in cfg.succ[S] if not body.blocks[s_]['cleanup']]
+            if any(s_ == y or cfg.postdominates(y, s_) for s_ in succs) and not cfg.postdominates(y, S):
+                out.add(S)
+                work.append(S)
+    return out
+
+
 def counter_loop(body, L):
     """`let mut c = S; while c < N { ...; c += 1; }` -> the iterator term of the equivalent `for c in S..N`
     (an ('agg', 'std::ops::Range', ..) term), or None.  Requires: the loop header tests c < N (or N > c), c has exactly one
